@@ -142,6 +142,13 @@ struct SeqEngine : Engine
         }
     }
 
+    bool foreign(Plan const &p) const override
+    {
+        if (p.prop != "C07") return false;
+        if (p.knob("bern_permille", 0) != 0) return false;
+        for (auto const &o : p.ops) if (o.fk) return false;
+        return true; // a fault-free history that fails is C04-C06's finding
+    }
     std::vector<KnobShrink> shrinkable_knobs() const override
     {
         return {{"alloc_move", 0}, {"alloc_reuse", 0}, {"alloc_junk", 0}, {"maxlen", 4}, {"keyspace", 1}, {"cap", 0}, {"zsel", 4}, {"dtor_at_end", 0}, {"two", 0}, {"nodes", 2}};
